@@ -151,6 +151,10 @@ class LOC(dns.rdata.Rdata):
         _check_coordinate_list(longitude, -180, 180)
         self.longitude = tuple(longitude)  # pyright: ignore
         self.altitude = float(altitude)
+        # The wire form is an unsigned 32-bit number of centimeters above
+        # -100000.00m.
+        if not -10000000.0 <= self.altitude <= 4284967295.0:
+            raise ValueError("altitude out of range")
         self.size = float(size)
         self.horizontal_precision = float(hprec)
         self.vertical_precision = float(vprec)
@@ -255,7 +259,7 @@ class LOC(dns.rdata.Rdata):
         t = tok.get_string()
         if t[-1] == "m":
             t = t[0:-1]
-        altitude = float(t) * 100.0  # m -> cm
+        altitude = round(float(t) * 100.0)  # m -> cm
 
         tokens = tok.get_remaining(max_tokens=3)
         if len(tokens) >= 1:
